@@ -145,11 +145,17 @@ def run_unit(ctx, proofs_ok):
     ]
     with C.Threads():
         coll = C.Collector(ctx, "C04", "graph")
-        nx = C.budget(ctx, 3, 12)
+        nx = C.budget(ctx, 3, 30)
         unit = _part(ctx, rng, torch, nx, coll)
         # the standing mechanism, re-found by its dedicated minimal experiment on every run
         for envname in ("mcp", "flp"):
-            rec = S.mixed_quota_experiment(torch, envname)
+            try:
+                rec = S.mixed_quota_experiment(torch, envname)
+            except Exception as e:  # noqa: BLE001  (e.g. an all-masked row: the experiment takes the first offered item)
+                coll.fail(SIG % envname, {"kind": "mixed_quota", "env": envname, "what": "the minimal per-row-quota experiment (two copies of one "
+                                          "instance, quotas 1 and 3, rl4co's loop) raised %s: %s" % (type(e).__name__, str(e)[:200])})
+                unit["%s_mixed_quota_minimal_experiment_fails" % envname] = "raised"
+                continue
             if S.mixed_quota_fails(rec):
                 rec = dict(rec, what="per-row quotas in one batch: the env offers a finished row no inert action and rl4co's rollout loop "
                                      "steps until td['done'].all(); the row selects past its quota and is rewarded for the larger selection, "
